@@ -625,14 +625,17 @@ end
 
 /-! ### chat.Type (the chat-type header of player chat packets) -/
 
-structure ChatType where
+/-- the header, over the representation `α` of the two names (`Msg`; `GoVal` for the exact NBT-form codec) -/
+structure ChatTypeOf (α : Type) where
   id : BitVec 32
-  sender : Msg
-  target : Option Msg
+  sender : α
+  target : Option α
 deriving Repr, Inhabited
 
+abbrev ChatType := ChatTypeOf Msg
+
 /-- `(*Type).WriteTo` over the codec `msgC` of `Message.WriteTo/ReadFrom` -/
-def typeEnc (msgC : Codec Msg) (t : ChatType) : Bytes × Nat :=
+def typeEnc {α : Type} (msgC : Codec α) (t : ChatTypeOf α) : Bytes × Nat :=
   let (b1, n1) := varIntEnc t.id
   let (b2, n2) := msgC.enc t.sender
   let (b3, n3) := boolEnc t.target.isSome
@@ -644,7 +647,7 @@ def typeEnc (msgC : Codec Msg) (t : ChatType) : Bytes × Nat :=
 
 /-- `(*Type).ReadFrom` (repaired): the sender is decoded into the old sender, a target into `new(Message)`;
 without a target the old one is dropped -/
-def typeDec (msgC : Codec Msg) (old : ChatType) : Rd (ChatType × Nat) := do
+def typeDec {α : Type} (msgC : Codec α) (old : ChatTypeOf α) : Rd (ChatTypeOf α × Nat) := do
   let (id, n1) ← varIntRead
   let (sender, n2) ← msgC.dec old.sender
   let (has, n3) ← boolDec false
